@@ -654,7 +654,7 @@ func C04(c Ctx) *report.Report {
 	}
 	for _, h := range hs {
 		MonBacking(rep, h)
-		MonUnits(rep, h)
+		monUnitsBut14(rep, h) // units must be what the providers hold (finding F-14 is C02's, known there)
 		if len(rep.Samples) < 2 && len(h.Steps) > 3 {
 			rep.Sample(replayOf(h, 11))
 		}
